@@ -4,6 +4,7 @@
 // (new State read back from the state file + fresh tree), and reports the content of the state file.
 //
 // ops:  cfg thr=<n> [tz=<seconds east of UTC: time.Local of the process>] | known u=<enc> | rec ts= dur= tot= st= m= u= i= c= int= | run cuts=<..|-> restarts=<..|-> [faildumps=<..|->]
+//       [ticks=<cuts>: refresh ticks of periodicallyUpdateTree with the policies file untouched] [reloads=<cuts>: policies file rewritten]
 //       (faildumps: the flush of the batch ending at that cut cannot write the state file — transient fault)
 // answer of `run`: full=<0|1> fail=<k> avg=<ok|off:..> ep <key> <count> <minS> <maxS> <st> ... ce <tag> <key> ... it <type> <ver> <tsS>
 //
@@ -79,14 +80,28 @@ func parseList(s string) []int {
 
 type seg struct {
 	failDump bool // the state file cannot be written during this Run
+	tick     bool // refresh ticks pass, policies file untouched
+	reload   bool // policies file rewritten (newer mtime), wait for the refresh
 	restart bool
 	recs    []common.AccessLog
 }
 
-func segsOf(recs []common.AccessLog, cuts, restarts, faildumps []int) []seg {
+func takeOne(xs *[]int, c int) bool {
+	for i, x := range *xs {
+		if x == c {
+			*xs = append((*xs)[:i], (*xs)[i+1:]...)
+			return true
+		}
+	}
+	return false
+}
+
+func segsOf(recs []common.AccessLog, cuts, restarts, faildumps, ticks, reloads []int) []seg {
 	var out []seg
 	rs := append([]int(nil), restarts...)
 	fd := append([]int(nil), faildumps...)
+	tk := append([]int(nil), ticks...)
+	rl := append([]int(nil), reloads...)
 	prev := 0
 	clamp := func(x int) int {
 		if x > len(recs) {
@@ -112,6 +127,12 @@ func segsOf(recs []common.AccessLog, cuts, restarts, faildumps []int) []seg {
 				rs = append(rs[:i], rs[i+1:]...)
 				break
 			}
+		}
+		if takeOne(&rl, c) {
+			out = append(out, seg{reload: true})
+		}
+		if takeOne(&tk, c) {
+			out = append(out, seg{tick: true})
 		}
 		prev = c
 	}
@@ -146,7 +167,31 @@ func (r *runner) once(segs []seg) (out sharedDiscovery.Output, fails int, buildE
 	if err := st.InitializeState(); err != nil {
 		panic(err)
 	}
+	var rf *refresher
 	for _, s := range segs {
+		if s.tick || s.reload {
+			rf = startRefresher(r.dir, r.n, r.known, r.thr)
+			defer rf.stop()
+			break
+		}
+	}
+	for _, s := range segs {
+		if s.tick || s.reload {
+			// the plugin's own refresh loop decides whether the tree is swapped (for a tree built from the known endpoints)
+			swapped := false
+			if s.tick {
+				swapped = rf.tick()
+			} else {
+				swapped = rf.reload()
+			}
+			if swapped {
+				tree, err = r.tree()
+				if err != nil {
+					return out, 0, true
+				}
+			}
+			continue
+		}
 		if s.restart {
 			tree, err = r.tree()
 			if err != nil {
@@ -446,12 +491,25 @@ func exec(c proto.Case, o *proto.Out) []string {
 			if !ok {
 				fds = "-"
 			}
+			opt := func(k string) []int {
+				if v, ok := proto.KV(w, k); ok {
+					return parseList(v)
+				}
+				return nil
+			}
+			ticks, reloads := opt("ticks"), opt("reloads")
+			if len(ticks) > 0 {
+				o.Count("run-with-refresh-ticks")
+			}
+			if len(reloads) > 0 {
+				o.Count("run-with-policies-reload")
+			}
 			cuts, restarts, faildumps := parseList(cs), parseList(rs), parseList(fds)
 			if len(faildumps) > 0 {
 				o.Count("run-with-failed-dump")
 			}
-			full := len(restarts) == 0
-			real, fails, berr := r.once(segsOf(recs, cuts, restarts, faildumps))
+			full := len(restarts) == 0 && len(reloads) == 0
+			real, fails, berr := r.once(segsOf(recs, cuts, restarts, faildumps, ticks, reloads))
 			if berr {
 				outs[i] = "err:build"
 				o.Count("build-error")
@@ -462,7 +520,7 @@ func exec(c proto.Case, o *proto.Out) []string {
 				sh[j] = recs[j]
 				sh[j].StatusCode = shadowBase + j
 			}
-			shadow, _, _ := r.once(segsOf(sh, cuts, restarts, faildumps))
+			shadow, _, _ := r.once(segsOf(sh, cuts, restarts, faildumps, ticks, reloads))
 			verdict := avgVerdict(full, recs, real, shadow)
 			if verdict == "nondet" {
 				// two executions of the same run (differing only in status codes) attributed records differently:
@@ -511,5 +569,6 @@ func exec(c proto.Case, o *proto.Out) []string {
 
 func main() {
 	zerolog.SetGlobalLevel(zerolog.Disabled)
+	defer cleanupHelper()
 	proto.Main(proto.Harness{Rule: rule, Gen: gen, Exec: exec})
 }
